@@ -214,10 +214,11 @@ KEYWORDS = "|".join(
 
 grammar = Grammar(
     rf"""
-    aaa_prog            = (space* eol+)* multi_line eol* ~r"\x00?" eof
+    aaa_prog            = (space* eol+)* multi_line (eol space*)* ~r"\x00?" eof
     multi_line          = line space* multi_line_elements
     multi_line_elements = multi_line_element*
-    multi_line_element  = eol+ line space*
+    multi_line_element  = blank_lines line space*
+    blank_lines         = eol (space* eol)*
     lhs             = str_array_ref_exp / str_var / array_ref_exp / var
     array_ref_exp   = var space* exp_list
     arr_assign      = "LET"? space* array_ref_exp space* "=" space* exp
